@@ -105,6 +105,8 @@ def run_case(ctx, case):
     from bob.cmds.jenkins.intermediate import PartialIR
     from bob.cmds.build.build import ExecutableStep, LazyIR
     model = case["model"]
+    if case.get("cross") is not None:
+        model = projgen.add_multi_cross(model, case["cross"])
     if case.get("sbprovider"):
         from checks.c03_idpurity import with_sandbox_provider
         model = with_sandbox_provider(model, case["sbprovider"])
@@ -268,6 +270,7 @@ def case_st(quick):
         "isolate": st.sampled_from([None, None, "r[12]", ".*-a", "r0", "lib"]),
         "sandboxmode": st.sampled_from([True, False, "slim", "dev", "strict"]),
         "short": st.booleans(),
+        "cross": st.sampled_from([None, None, 0, 1, 2, 3, 4, 5]),
         "sbprovider": st.sampled_from([False, True, 1, 2, 3]),
         "fold": st.one_of(st.none(), st.none(), st.lists(I, min_size=2, max_size=3, unique=True)),
     })
